@@ -6,6 +6,8 @@ EXPLANATION = ("Bounded runtime contracts on the real tf_pwa.data helpers (split
                "seeded nested structures incl. empty containers, boundary sample and batch sizes, every dat_order permutation and two-file inputs.")
 ASSUMPTIONS = ["A-LIB: numpy text / npy / npz serialisation and tf.concat / tf.boolean_mask / tf.data are trusted through the exact round-trip comparison only"]
 
+EXPLANATION += (" Proved: _data_split partition for all sizes (loop VCs); load_dat_file's file -> particle index map on symbolic file contents (sizes bounded).")
+
 from vt.contracts import iface_data  # noqa: F401,E402
 from vt.contracts import loops  # noqa: F401,E402
 from vt.contracts import data_sym  # noqa: F401,E402  (file -> particle index map on symbolic file contents)
